@@ -532,4 +532,17 @@ theorem rerunIn_specM : ∀ (v : View) (t : RState), GoodM P0 Q0 v t → v.wf K 
 
 end rerun
 
+/-- the re-run of an effect inside a state tree of `v` is accounted for (`RerunM`), whatever the effect — what the
+top-level invariant needs to know about a class of views -/
+def RerunOK (K : Nat) (v : View) : Prop :=
+  ∀ {s : St}, RM K s → ∀ {e : Nat} {w : Int} {P0 : EP} {Q0 : Nat → Expr → Prop},
+    (∀ e' x cur, e' ≠ e → P0 e' x cur → EM K s e' x cur) →
+    (∀ x (cur : Int → Prop), P0 e x cur → ∀ cur' : Int → Prop, cur' w → EM K s e x cur') →
+    (∀ m c, Q0 m c → ShowMemo K s m c) →
+    ∀ (t : RState), GoodM P0 Q0 v t → (effsOf t).Nodup →
+      RerunM K (EM K) s t v (rerunIn e w t s).1 (rerunIn e w t s).2.1
+
+theorem rerunOK_coreS {K : Nat} {v : View} (hw : v.wf K = true) (hc : v.coreS = true) : RerunOK K v :=
+  fun hi _ _ _ _ hothers hself hq t hg hnd => rerunIn_specM (predM_em K) hi hothers hself hq v t hg hw hc hnd
+
 end Leptos.RView
